@@ -11,7 +11,7 @@ CLAIMED = {
          "Exploration: every matrix of <=3 (quick) / <=4 (thorough) rows over all patterns of depth <=2 for bool, Opt[bool], (bool,bool) and a three-variant enum, plus random matrices over ints, strings, unit, tuples, a struct, enums and generic Opt[T] (depth <=3, <=6 rows) and destructuring lets; each program applies the match to ALL values of the scrutinee type over representative leaf domains that some row matches and to one unmatched value; stdout/end under miniGo must equal first-match semantics (failed match must fail at that point); ticked scrutinee detects double evaluation.",
          PROG_NOTE, "DESIGN.md §5 C06"),
  "C19": ("exhaustive enumeration of the compiler's name-encoding functions over a small identifier alphabet + directed collision programs + differential PBT with hostile identifier pools",
-         "Exploration: (1) go_ident/go_type_name_for/ref_struct_name/array_helper_fn_name/trait_impl_fn_name/inherent_method_fn_name on every identifier over {A,B,a,b,_,1} (len<=3/4) and every pair/(trait,type)/(type,method) combination: distinct entities must get distinct Go identifiers, user names must not come out as Go keywords/predeclared names; (2) 24 directed programs, one per collision family, must build and print the expected output; (3) ~50k/800k generated programs whose function/type/field/local names come from pools of Go keywords, predeclared identifiers, runtime-helper and temporary look-alikes must type-check as Go and behave as the (name-independent) reference interpreter says.",
+         "Exploration: (1) go_ident/go_type_name_for/ref_struct_name/array_helper_fn_name/trait_impl_fn_name/inherent_method_fn_name on every identifier over {A,B,a,b,_,1} (len<=3/4) and every pair/(trait,type)/(type,method) combination: distinct entities must get distinct Go identifiers, user names must not come out as Go keywords/predeclared names; (2) 26 directed programs, one per collision family, must build and print the expected output; (1b) 120k/600k pseudo-random tuple types of depth <=5 (Vec/Ref/array/function components, package-qualified and generic-instance names): every struct name a legal Go identifier, distinct types distinct names; (3) ~50k/800k generated programs whose function/type/field/local names come from pools of Go keywords, predeclared identifiers, runtime-helper and temporary look-alikes must type-check as Go and behave as the (name-independent) reference interpreter says.",
          PROG_NOTE, "DESIGN.md §5 C19"),
  "C03": ("generated accepted programs re-type-checked at every IR stage by independent checkers; single ill-typed statement injected at random positions must be rejected",
          "Exploration: (a) ~54k (quick) / ~880k (thorough) accepted generated programs: four independent IR type checkers (Core, Mono, Lift, ANF) must find every variable bound with the binder's type, every call/constructor/projection/operator/branch consistent with declared signatures, and no TParam/TVar/TApp residue after monomorphisation; (b) ~40k / 600k programs with one ill-typed statement of 28 kinds inserted at a random position in a random nested block must be rejected with an error diagnostic (never accepted, never a crash).",
@@ -33,7 +33,7 @@ CLAIMED = {
          "Exploration: generator biased to effects: print ticks in operands, call arguments, && / || operands, if/match/while conditions and branches, discarded lets, Ref updates, operations that fail at run time; the sequence of printed lines and the failure point of the emitted Go must equal the reference run. A separate phase generates programs with `go`: all schedules (stateless DFS over choice points before every Ref access/print/spawn) are enumerated with the reference interpreter and replayed under miniGo's deterministic scheduler.",
          PROG_NOTE, "DESIGN.md §5 C09"),
  "C05": ("exhaustive scope skeletons + shadowing-biased random programs; resolution read from the HIR and compared with the generator's binder for every use",
-         "Exploration: every sequence of <=5 (quick) / <=6 (thorough) scope operations over two names (let, use, open/close if-block, match arm, closure, while body) is turned into a program, plus random longer skeletons and type-directed programs from a 3-name pool. For each accepted program every use's NameRef::Local id must equal the id of the binder the generator intended, a well-scoped program must not be rejected for scoping reasons, an unbound use must be rejected, and the compiled program must print the intended binder's value (reference interpreter vs Go-subset interpreter).",
+         "Exploration: every sequence of <=5 (quick) / <=6 (thorough) scope operations over two names (let, use, open/close if-block, match arm, closure, while body) is turned into a program, plus random longer skeletons (6-15 operations), wide skeletons (20-60 operations, mostly lets, so that many bindings are in scope at once) and type-directed programs from a 3-name pool in which top-level functions may be spelled like the locals that shadow them. For each accepted program every use's NameRef::Local id must equal the id of the binder the generator intended, a well-scoped program must not be rejected for scoping reasons, an unbound use must be rejected, and the compiled program must print the intended binder's value (reference interpreter vs Go-subset interpreter).",
          "Trusted: the harness' own scoping model (a stack), text-range matching of binders/uses, miniGo for the behavioural part. Depth beyond the enumerated skeleton length is only sampled.",
          "DESIGN.md §5 C05"),
  "C11": ("exhaustive operator pairs/triples (quads thorough) + random syntax trees printed with minimal parentheses and random trivia; parse-back round trip; literal fidelity oracle",
@@ -41,11 +41,11 @@ CLAIMED = {
          "Trusted: the harness' tree model, printer and AST converter (written from the documented binding powers); derive expansion is avoided in round-trip trees.",
          "DESIGN.md §5 C11"),
  "C04": ("fuzzing-style generated inputs (Unicode/token soups, corpus mutations, deep nesting, JSON artifact mutations) against a crash/diagnostic oracle",
-         "Exploration: random Unicode and token sequences, mutated corpus programs, 1..256-deep nestings of every bracketing form, and single-leaf/raw mutations of the interface/core artifacts of all corpus projects are pushed through compile, check_package, build_package, read_core and link_cores under panic capture in memory-capped worker processes; Err must carry an error diagnostic, ranges must lie in the text. Absence of crashes beyond the explored inputs is not shown.",
+         "Exploration: random Unicode and token sequences, mutated corpus programs, 1..256-deep nestings of every bracketing form, every depth 1..300 of 14 unclosed openers x 7 contexts x 13 following items (unwind), one fragment repeated 1..600 times inside 21 constructs (repeat), projects on disk disturbed by file-system operations (layouts: non-UTF-8, empty/deleted/duplicated files, directory named x.gom, symlinks, file for directory, case twins, BOM, CRLF ...), and single-leaf/raw mutations of the interface/core artifacts of all corpus projects are pushed through compile, check_package, build_package, read_core and link_cores under panic capture in memory-capped worker processes; Err must carry an error diagnostic, ranges must lie in the text. Absence of crashes beyond the explored inputs is not shown.",
          "Trusted: in-process calls stand for the CLI subcommands; non-termination is only observable as a watchdog hit (reported as inconclusive, exit 2); resource exhaustion is observed as a worker abort under a 6 GiB address-space cap.",
          "DESIGN.md §5 C04"),
  "C12": ("exhaustive short strings + random/mutated texts; round-trip & tiling oracle on lexer and CST",
-         "Exploration: every string of <=3 (quick) / <=4 (thorough) symbols over a 46-symbol alphabet covering each token class is enumerated, plus random token/Unicode soups and corpus mutations; each input is judged by a complete oracle (text round-trip, token tiling on char boundaries, leaves==lexer tokens, ranges in bounds, parse twice equal). Absence beyond the explored inputs is not shown.",
+         "Exploration: every string of <=3 (quick) / <=4 (thorough) symbols over a 46-symbol alphabet covering each token class is enumerated, plus the exhaustive unwind (depth x opener x context x following item) and repeat (fragment repeated 1..600 times in 21 constructs) families, random token/Unicode soups and corpus mutations; each input is judged by a complete oracle (text round-trip, token tiling on char boundaries, leaves==lexer tokens, ranges in bounds, parse twice equal). Absence beyond the explored inputs is not shown.",
          "Trusted: rowan's text(); the harness oracle. Inputs longer than the bounds are only sampled.",
          "DESIGN.md §5 C12"),
  "C10": ("exhaustive 8-bit literal and operator tables + random wide-integer and float programs; Rust fixed-width/IEEE arithmetic as reference, emitted Go run under the Go-subset interpreter",
@@ -53,11 +53,11 @@ CLAIMED = {
          "Trusted: Rust's wrapping integer and IEEE float arithmetic as the meaning of intN/uintN/floatN; miniGo (calibrated in setup against values fixed by the Go specification); NaN/infinities/negative zero and float overflow are not judged.",
          "DESIGN.md §5 C10"),
  "C13": ("generated multi-package projects compiled repeatedly: same process, fresh processes (fresh hash seeds), other root directory and directory creation order; byte equality of Go, stage dumps, diagnostics, interface hashes",
-         "Exploration: ~2000 generated projects (1-4 packages, DAG imports, cross-package generics/traits/impls) plus ~1600 projects with an injected error and the 8 corpus projects: every run (in-process repeat, 1-2 fresh worker processes, a copy created in another directory order under another root) must give byte-identical Go text, Core/Mono/Lift/ANF dumps, the same diagnostics in the same order and identical interface hashes from check and build.",
+         "Exploration: ~2000 generated projects (1-4 packages, DAG imports, cross-package generics/traits/impls) (multi-file packages incl. file names differing only in case, extern-go bindings to several Go packages) plus ~1600 projects with an injected error and the 8 corpus projects: every run (in-process repeat, 1-2 fresh worker processes, a copy created in another directory order under another root, a package's files handed to check/build in reverse order) must give byte-identical Go text, Core/Mono/Lift/ANF dumps, the same diagnostics in the same order and identical interface hashes from check and build.",
          "Trusted: tmpfs directory enumeration follows creation order (varied explicitly); std RandomState reseeds per process. Nondeterminism that needs more than two processes to show is only sampled.",
          "DESIGN.md §5 C13"),
  "C14": ("generated multi-package projects: whole-program compile vs check/build per package in random topological orders with artifacts round-tripped through files, then link; behaviour compared under the Go-subset interpreter",
-         "Exploration: ~6000 generated projects and ~2000 with an injected defect plus the 8 corpus projects: acceptance must agree between the two pipelines, the linked program must print what the whole-program one prints (miniGo), the result must not depend on which topological build order was used, and check and build must emit byte-identical interface files.",
+         "Exploration: ~6000 generated projects (incl. declaration-only library packages), ~2000 broken ones (text replacement or a compile-stage error), ~3000 with one of the isolation/coherence defects of C16, plus the 8 corpus projects: acceptance must agree between the two pipelines, the linked program must print what the whole-program one prints (miniGo), the result must not depend on which topological build order was used, and check and build must emit byte-identical interface files.",
          "Trusted: in-process separate::{check,build}_package / read_core / link_cores with files on disk stand for the CLI; miniGo for both sides.",
          "DESIGN.md §5 C14"),
  "C15": ("model-based histories of {edit, check, build, link} over small dependency graphs with a reference staleness model + exhaustive/random single-field corruption of interface/core JSON",
@@ -69,7 +69,7 @@ CLAIMED = {
          "Trusted: a defect counts as reported when an error diagnostic comes back; goml being stricter than the statement (per-file imports) is not judged.",
          "DESIGN.md §5 C16"),
  "C17": ("generated trait/impl/receiver programs calling one method through every applicable call form; results must agree with each other and with the impl's body; negative programs (no impl for dyn coercion, ambiguous names) must be rejected",
-         "Exploration: ~20k programs over receivers (primitives, structs, enums, generic instances, tuples; other-package types), inherent and trait methods, called as x.m(a), T::m(x,a), Tr::m(x,a), through T: Tr bounds and through dyn Tr; each prints a per-impl constant combined with its arguments, all forms must print the same under miniGo as the reference; ~4000 programs coercing a type without impl to dyn Tr and ~3000 with ambiguous method names must be rejected; ~2000 inherent/trait name clashes.",
+         "Exploration: ~20k programs over receivers (primitives, structs, enums, generic instances, tuples; other-package types), inherent and trait methods, called as x.m(a), T::m(x,a), Tr::m(x,a), through T: Tr bounds, through dyn Tr and from inside closures capturing the receiver or the trait object; method names include names the Go back end escapes (range, len, new, init ...); each prints a per-impl constant combined with its arguments, all forms must print the same under miniGo as the reference; ~4000 programs coercing a type without impl to dyn Tr and ~3000 with ambiguous method names must be rejected; ~2000 inherent/trait name clashes; a third of the programs also call a printing trait method with its result discarded in tail / statement / let / while-tail / if-tail / match-arm position through every form and must print every call in order.",
          "Trusted: miniGo; call forms the language does not offer are not generated (listed in the evidence assumptions).",
          "DESIGN.md §5 C17"),
  "C18": ("generated derive(ToString/ToJson) types and values; emitted Go run under the Go-subset interpreter; strict JSON parser + structural decoder as the oracle",
@@ -77,7 +77,7 @@ CLAIMED = {
          "Trusted: the JSON shape given in the property text and samples; miniGo's %q. Findings KF-36..40 gate the shapes they cover.",
          "DESIGN.md §5 C18"),
  "C20": ("fuzzed editor states (prefixes, truncations and mutations of generated and corpus programs) x cursor positions incl. out-of-text; crash oracle; hover type vs generator's type; every completion inserted and type-checked",
-         "Exploration: ~50k (text, line, col) requests to hover_type, dot_completions and colon_colon_completions on prefixes/mutations of valid programs with positions inside, at the edges of and beyond the text must return without panic; ~8000 hovers on local binders/uses of accepted generated programs must print the generator's type; ~24k completion sites: every offered item is inserted after `x.` / `Path::` and the result must type-check.",
+         "Exploration: ~50k (text, line, col) requests to hover_type, dot_completions and colon_colon_completions on prefixes/mutations of valid programs with positions inside, at the edges of and beyond the text must return without panic; ~8000 hovers on local binders/uses of accepted generated programs and on method names in calls on generic instances (one- and two-parameter types, impls for one instance) must print the generator's type / the method's type at that instance; ~24k completion sites: every offered item is inserted after `x.` / `Path::` and the result must type-check.",
          "Trusted: the generator's type of a local is what a correct compiler assigns (program accepted first); completeness of completion lists is not judged. Findings KF-47..50 gate the shapes they cover.",
          "DESIGN.md §5 C20"),
 }
